@@ -75,6 +75,9 @@ func wxCheck(prop string, quickS, thoroughS int, jobs func(tier string) []runner
 	}
 	Checks[prop] = func(rp *runner.Report) int {
 		rp.RunJobs(jobs(rp.Tier), runner.Budget(rp.Tier, quickS, thoroughS), accept)
+		if TinyParts[prop] != nil {
+			mergeTiny(rp)
+		}
 		return rp.Finish("model_checking", wxAssumptions, map[string]interface{}{
 			"method": "explicit-state breadth-first search over the real ecs.World in lock-step with a reference model; successors by replay on fresh worlds; state oracles on every state, transition oracles on every transition",
 		})
@@ -116,6 +119,20 @@ func init() {
 		}
 		return js
 	}, acceptProps("C01"))
+
+	// C01 names both mask-width builds: a part of the portfolio also runs in the `tiny` build (64 bit masks)
+	c01tiny := func(tier string) []runner.Job {
+		return []runner.Job{
+			job(sc(sim.CoreCfg("c01-tiny-core-k3-cap1-broad", 3, 1, nil, fMove|fVal|fBNew|fBExch|fBRem|fReset|fQ, oBasic).P("C01")), pick(tier, 4, 6), 2),
+			job(sc(sim.CoreCfg("c01-tiny-core-k3-ids-15-16-17", 3, 1, []int{15, 0, 0, 0}, fMove|fVal|fBExch, oBasic).P("C01")), pick(tier, 4, 6), 1),
+			job(sc(sim.CoreCfg("c01-tiny-core-k3-ids-31-32-63", 3, 2, []int{31, 0, 29, 0}, fMove|fVal|fBExch, oBasic).P("C01")), pick(tier, 4, 6), 1),
+			job(sc(sim.RelCfg("c01-tiny-rel-k3-cap1-storage", 0, 3, 0, 1, fBld|fMove|fRel|fRet|fVal|fBSet|fBExch|fReset, oBasic).P("C01")), pick(tier, 4, 6), 2),
+		}
+	}
+	c01tiny("quick")
+	TinyParts["C01"] = func(rp *runner.Report) {
+		rp.RunJobs(c01tiny(rp.Tier), runner.Budget(rp.Tier, 25, 240), acceptProps("C01"))
+	}
 
 	// ------------------------------------------------------------------ C02 entity handles
 	wxCheck("C02", 60, 600, func(tier string) []runner.Job {
